@@ -38,7 +38,7 @@ def em(name):
 
 
 PRIVATE = ("verif_thread_id", "verif_hm", "verif_hc", "verif_mutex", "verif_cond", "verif_thread", "verif_flag_get", "verif_flag_set",
-           "verif_work_done_set", "verif_work_done_check")
+           "verif_work_done_set", "verif_work_done_check", "verif_count_is_zero", "verif_count_inc", "verif_count_dec")
 
 
 def visible(callee):
@@ -62,7 +62,7 @@ def gset(it, path, v):
     write_ref(Ref(root(it, "ghost"), path), v)
 
 
-G_INCS, G_FLAG, G_WORK, G_ENTERED = 0, 1, 2, 3
+G_INCS, G_FLAG, G_WORK, G_ENTERED, G_COUNT = 0, 1, 2, 3, 4
 
 
 @em("verif_thread_id")
@@ -120,6 +120,26 @@ def e_flag_get(it, ctx, callee, args):
 @em("verif_flag_set")
 def e_flag_set(it, ctx, callee, args):
     gset(it, (G_FLAG,), z3.BoolVal(True))
+    return UNIT
+
+
+@em("verif_count_is_zero")
+def e_count_zero(it, ctx, callee, args):
+    return gget(it, G_COUNT).t == 0
+
+
+@em("verif_count_inc")
+def e_count_inc(it, ctx, callee, args):
+    gset(it, (G_COUNT,), Int(gget(it, G_COUNT).t + 1, "u8"))
+    return UNIT
+
+
+@em("verif_count_dec")
+def e_count_dec(it, ctx, callee, args):
+    c = gget(it, G_COUNT)
+    if ctx.branch(c.t == 0):
+        raise Panic("GHOST: consumer took an item from an empty counter", "env")
+    gset(it, (G_COUNT,), Int(c.t - 1, "u8"))
     return UNIT
 
 
@@ -276,7 +296,7 @@ def h_true(it, ctx, fn, args):
 
 
 ROLES = {"locker": "drv_c09_locker", "waiter": "drv_c09_waiter", "notifier": "drv_c09_notifier", "finisher": "drv_c09_finisher",
-         "joiner": "drv_c09_joiner"}
+         "joiner": "drv_c09_joiner", "consumer": "drv_c09_consumer", "producer": "drv_c09_producer"}
 
 
 def build_system(progs, roles):
@@ -310,7 +330,7 @@ def build_system(progs, roles):
     sysm.add_root("mtx", Tup((None, CM.mk_atomic(Int(unlocked, "i32")), Int(0, "i64")), name="Mutex"))
     sysm.add_root("cnd", Tup((None, CM.mk_atomic(Int(0, "i32"))), name="Condition"))
     sysm.add_root("sched", Tup([Int(0, "u8") for _ in range(T)]))
-    sysm.add_root("ghost", Tup((Int(0, "u8"), z3.BoolVal(False), z3.BoolVal(False), Int(0, "u8"))))
+    sysm.add_root("ghost", Tup((Int(0, "u8"), z3.BoolVal(False), z3.BoolVal(False), Int(0, "u8"), Int(0, "u8"))))
     for t, r in enumerate(roles):
         fn = drv_prog.find(ROLES[r[0]])
         if fn is None:
@@ -322,6 +342,9 @@ def build_system(progs, roles):
             args.append(z3.BoolVal(bool(r[1])))
         elif r[0] == "joiner":
             args.append(Int(r[1], "usize"))
+        elif r[0] == "producer":
+            # ("producer", rounds, all, outside)
+            args += [Int(r[1], "usize"), z3.BoolVal(bool(r[2])), z3.BoolVal(bool(r[3]))]
         sysm.add_thread(fn, args)
     return sysm
 
@@ -365,7 +388,7 @@ def run_config(progs, cfg, tmo, deadline, qjobs=4):
     if names.count("locker") >= 2:
         wit.append(("witness-contended-lock-blocks-in-the-runtime", U.fired(lambda e: "DoraThread::block" in B.node_name(e.src)
                                                                             and "Condvar::wait" in e.label)))
-    if "waiter" in names:
+    if "waiter" in names or "consumer" in names:
         wit.append(("witness-waiter-blocks-on-the-condition", U.fired(lambda e: "condition_block_after_enqueue" in B.node_name(e.src)
                                                                        and "Condvar::wait" in e.label)))
     if "joiner" in names:
@@ -385,6 +408,7 @@ CONFIGS = {
         {"name": "waiter+notify_one", "roles": [("waiter",), ("notifier", 0)], "K": 50},
         {"name": "waiter+notify_all", "roles": [("waiter",), ("notifier", 1)], "K": 50},
         {"name": "join", "roles": [("finisher",), ("joiner", 0)], "K": 20},
+        {"name": "consumer+producer-notifies-after-unlock", "roles": [("consumer",), ("producer", 1, 0, 1)], "K": 55},
     ],
     "thorough": [
         {"name": "2-lockers", "roles": [("locker", 1), ("locker", 1)], "K": 40},
@@ -395,6 +419,9 @@ CONFIGS = {
         {"name": "3-lockers", "roles": [("locker", 1), ("locker", 1), ("locker", 1)], "K": 70},
         {"name": "2-waiters+notify_all", "roles": [("waiter",), ("waiter",), ("notifier", 1)], "K": 85},
         {"name": "2-waiters+notify_one+notify_one", "roles": [("waiter",), ("waiter",), ("notifier", 0), ("notifier", 0)], "K": 110},
+        {"name": "consumer+producer-notifies-after-unlock", "roles": [("consumer",), ("producer", 1, 0, 1)], "K": 55},
+        {"name": "2-consumers+producer-2-rounds-notify_all-after-unlock", "roles": [("consumer",), ("consumer",), ("producer", 2, 1, 1)], "K": 120},
+        {"name": "2-consumers+producer-2-rounds-notify_one-after-unlock", "roles": [("consumer",), ("consumer",), ("producer", 2, 0, 1)], "K": 120},
     ],
 }
 
